@@ -123,9 +123,10 @@ func (s *StatGroup) GetFpsFrom(p *PeriodRecord, nowUnixSec int64) {
 	p.mu.Lock()
 	defer p.mu.Unlock()
 
-	if s.Fps == nil || len(s.Fps) < len(p.ringBuf) {
-		s.Fps = make([]RecordPerSec, len(p.ringBuf))
-	}
+	// always a fresh slice: the StatGroup is handed out by value (copies share the slice) and serialised by the callers
+	// outside the group lock (http api, notify, debug log). Reusing the array - which happened as soon as all
+	// len(p.ringBuf) seconds of the ring were in use - overwrote and re-sorted snapshots that were being serialised.
+	s.Fps = make([]RecordPerSec, len(p.ringBuf))
 
 	nRecord := 0
 	for _, record := range p.ringBuf {
